@@ -7,7 +7,8 @@ RULE = ("sweep stack_max_height in {2,3,4,8,16,127,128,129,254,255,256,257,300,5
         "height-3..height+3 (chains of free variables whose enumeration order is known analytically) x value heuristic "
         "(mid-value pushes two levels per choice) x {BC, shaving}; all stacks are views into larger sentinel-filled "
         "buffers (red-zone canaries). Problem sizes around the index types: total constraint arity and parameter count "
-        "at 65535 +/- {0..16} and far beyond, 65535/65536/65537 shared domains, propagator type index 254..257. "
+        "at 65535 +/- {0..16} and far beyond (a multiprocessing solver one of whose workers needs more stack than "
+        "configured must raise or still be right, never answer from the surviving workers alone), 65535/65536/65537 shared domains, propagator type index 254..257. "
         "Verdict: silent wrong/duplicated/missing solutions, a written guard row, a stack pointer that went backwards, "
         "or a refusal strictly inside the capacity are violations; at and beyond the boundary an error or a correct "
         "answer is accepted. distinct = distinct (height, depth, heuristic, algorithm) resp. (kind, size); all are "
@@ -49,6 +50,14 @@ def main(tier, seed):
     jobs.append(Job("framework.props.capacity", "run_sizes",
                     {"cases": [["types", n] for n in (254, 255, 256, 257)]}, mode="interp", timeout=600,
                     tag="sizes:types"))
+    # a stack that is too small inside a worker process of the multiprocessing solver: the call must raise or be right
+    ns = [11] if q else [11, 12, 13]
+    for op in ("solve", "minimize", "maximize"):
+        for k in (2, 3):
+            cases = [[n, h, k, op] for n in ns for h in (n - 3, n - 1, n, n + 1, n + 2, n + 4)]
+            jobs.append(Job("framework.props.capacity", "run_mp_stack", {"cases": cases},
+                            mode="jit" if (op == "solve" or k == 2) else "interp", timeout=900 if q else 2400,
+                            tag="mpstack:%s:%d" % (op, k), stall_s=300))
     common.run_jobs(jobs)
     distinct = set()
     for j in jobs:
@@ -77,6 +86,8 @@ def main(tier, seed):
     rep.need("outcome.beyond.error", 50, "beyond-capacity searches")
     rep.need("size.arity.beyond.error", 3, "arity beyond uint16")
     rep.need("size.params.beyond.error", 3, "parameters beyond uint16")
+    rep.need("mp_stack.beyond.error", 6, "multiprocessing calls with a worker whose stack is too small")
+    rep.need("mp_stack.inside.correct", 6, "multiprocessing calls within the stack")
     rep.assumptions = ["'height h' is read as: h-1 nested choice points are guaranteed; the two depths at the boundary "
                        "form a tolerance band (either a correct answer or an error)"]
     return rep.finish()
